@@ -466,7 +466,7 @@ def replay_fpequiv(cand):
 
 MANIFEST_ENTRY = {
     "engine": "symx+cast",
-    "technique": "bounded symbolic execution of the Python source (symx/z3) and of the C engine from clang's AST (cast/z3); per-path SMT queries against the definitional bin membership; C vs Python equivalence as terms; counterexamples replayed on a scratch build",
+    "technique": "bounded symbolic execution of the Python source (symx/z3) and of the C engine from clang's AST (cast/z3); per-path SMT queries against the definitional bin membership; the bin-index kernel of both engines also over z3's FloatingPoint sort at reduced width (counterexamples realised in doubles by the replay); strided-view inputs; C vs Python equivalence as terms; counterexamples replayed on a scratch build",
     "text": "For every array length up to the bound and every real-valued data/min/max/binsize (all solver variables) the counts, the reverse-index slices, their order and the bin count are proved equal to the definition on every feasible path of Binner/_dohist and of PyCHist_chist, and both engines are proved to produce identical arrays on arbitrary raw arguments. Bounded in N and nbin only; exact in the values.",
     "note": "floats as reals, except the bin-index kernel (one datum, both engines) which is also decided over IEEE floating point of reduced width (half precision quick, single thorough; double width does not finish in z3); N<=3 (quick) / 5 (thorough), nbin<=3/4; vf.symnp models NumPy (conformance pass against the real library on 80+ traces per run); numpy C-API accessors are intrinsics",
 }
